@@ -7,6 +7,7 @@ mod hook;
 mod minimise;
 mod parsework;
 mod prng;
+mod refinterp;
 mod sched;
 mod worker;
 mod world;
